@@ -34,10 +34,15 @@ def load_known_findings():
     return out
 
 
+_LIVE: list = []     # Check objects of this process (main_wrapper reports their violations if the run aborts)
+
+
 class Check:
     """One run of one property's check."""
 
     def __init__(self, pid: str, tier: str, seed: int, level: str = "model_checking"):
+        _LIVE.append(self)
+        self.finished = False
         self.pid, self.tier, self.seed, self.level = pid, tier, seed, level
         self.t0 = time.time()
         self.states = 0
@@ -94,6 +99,7 @@ class Check:
 
     # ---- finish
     def finish(self) -> int:
+        self.finished = True
         wall = time.time() - self.t0
         for h in self.known_hits:
             print(f"KNOWN-FINDING: property={self.pid} {h['what']}")
@@ -141,13 +147,26 @@ def _matches(pattern: dict, sig: dict) -> bool:
     return True
 
 
+def _abort(pid: str, what: str) -> int:
+    """The run stopped early.  Violations that were already established by completed comparisons stay
+    established (a later phase that cannot run on the changed code -- e.g. a canary built from a trace
+    the changed code no longer produces -- does not retract them): they are reported, exit 1.
+    With nothing established the outcome is a machinery failure, exit 2."""
+    print(f"[{pid}] MACHINERY FAILURE: {what}")
+    pending = [c for c in _LIVE if not c.finished and c.violations]
+    if not pending:
+        return 2
+    for c in pending:
+        c.note(f"run stopped early ({what}); violations found before that are reported")
+        c.finish()
+    return 1
+
+
 def main_wrapper(fn, pid: str, tier: str, seed: int) -> int:
     try:
         return fn(tier, seed)
     except MachineryFailure as e:
-        print(f"[{pid}] MACHINERY FAILURE: {e}")
-        return 2
+        return _abort(pid, str(e))
     except Exception:
         traceback.print_exc()
-        print(f"[{pid}] MACHINERY FAILURE: unexpected exception")
-        return 2
+        return _abort(pid, "unexpected exception")
